@@ -41,13 +41,36 @@ struct Capture
 {
     std::string out;
     long calls = 0;
+    // re-entrancy (targets printf_reentrant / printf_fp_reentrant): every `reenter_every`-th character the
+    // callback itself formats `reenter_val` through igris' __printf into a sink of its own, as a line-numbering
+    // or time-stamping output routine would; the outer output must not notice
+    int reenter_every = 0;
+    long long reenter_val = 0;
+    double reenter_dbl = 0;
+    bool reenter_fp = false;
+    bool in_reentry = false;
+    std::string inner_out;
+    long inner_runs = 0;
 };
+inline int igris_printf_v(Capture *cap, const char *fmt, ...);
 inline void cap_handler(void *d, int c)
 {
     Capture *cp = (Capture *)d;
     cp->calls++;
     if (cp->out.size() < (1u << 20))
         cp->out += (char)c;
+    if (cp->reenter_every && !cp->in_reentry && cp->calls % cp->reenter_every == 0)
+    {
+        cp->in_reentry = true;
+        Capture inner;
+        if (cp->reenter_fp)
+            igris_printf_v(&inner, "%lld;%.3f;%10.4f", cp->reenter_val, cp->reenter_dbl, cp->reenter_dbl);
+        else
+            igris_printf_v(&inner, "%lld;%x;%o;%s", cp->reenter_val, (unsigned)cp->reenter_val, (unsigned)(cp->reenter_val >> 7), "in");
+        cp->inner_out = inner.out;
+        cp->inner_runs++;
+        cp->in_reentry = false;
+    }
 }
 
 inline int igris_printf_v(Capture *cap, const char *fmt, ...)
